@@ -80,6 +80,15 @@ def check_simulate_forwarding(idx: Index, rep: Report):
                reason="joint frequencies are split with other indices / without the requested outcome")
 
 
+def _innermost_loop(f: FunctionInfo, node: ast.AST):
+    best = None
+    for n in ast.walk(f.node):
+        if isinstance(n, (ast.For, ast.While)) and any(x is node for b in n.body for x in ast.walk(b)):
+            if best is None or n.lineno > best.lineno:
+                best = n
+    return best
+
+
 def check_probability_flow(idx: Index, rep: Report):
     rule = "K6.probability-product"
     f = idx.function(f"{TCIRQ}::CirqSimulator.simulate_circuit")
@@ -93,7 +102,8 @@ def check_probability_flow(idx: Index, rep: Report):
     muls = [n for n in own_nodes(f.node) if isinstance(n, ast.AugAssign) and isinstance(n.op, ast.Mult) and norm(n.target) == "success_probability"]
     for s in sites:
         pvar = norm(s.targets[0].elts[-1])
-        later = [m for m in muls if norm(m.value) == pvar and m.lineno >= s.lineno]
+        loop = _innermost_loop(f, s)
+        later = [m for m in muls if norm(m.value) == pvar and m.lineno >= s.lineno and _innermost_loop(f, m) is loop]
         rep.decide(bool(later), rule, f, s, text=f"{norm(s.value.func).split('.')[-1]} -> {pvar} multiplied into success_probability",
                    what="the probability of each measurement outcome enters the probability of the whole outcome string",
                    reason=f"probability {pvar} returned at line {s.lineno} is never multiplied into success_probability")
